@@ -92,8 +92,9 @@ Pruned(J) == Purged(J, {r \in Used : ~IsOut(r)})
 \* ---- calls that change the object ----------------------------------------
 \* (every action sets obs' = ObsOf(P, db'); the conjuncts are written out because TLC labels an edge of the state
 \* graph with the innermost operator that is an action)
-\* exact' : evaluating from J gave the model of J's inputs (trivially so when J holds nothing but inputs)
-ExactAfter(J, m) == IF OnlyInputs(J) = J THEN TRUE ELSE m.I = Fresh(J).I
+\* exact' : evaluating from J stayed inside the defined value domain (no overflow, division by zero, ...) and gave the
+\* model of J's inputs (trivially so when J holds nothing but inputs)
+ExactAfter(J, m) == ~m.o /\ (IF OnlyInputs(J) = J THEN TRUE ELSE m.I = Fresh(J).I)
 
 Insert(r, i) == /\ r \in InRels /\ i \in 1..Len(P.univ[r])          \* inserts the tuple P.univ[r][i]
                 /\ db' = [db EXCEPT ![r] = @ \cup {P.univ[r][i]}]
@@ -145,15 +146,13 @@ TypeOK == /\ DOMAIN db = Rels
           /\ exact \in BOOLEAN
           /\ obs = ObsOf(P, db)
 \* Laws of the machine, for the evaluation m of the current state (one invariant so that TLC evaluates m once):
-\*  - the programs stay inside the defined value domain;
 \*  - run() only adds, and a second run() adds nothing;
 \*  - after an exact evaluation (the result is the model of the inputs = what inserting them into a new object, or
 \*    loading them from files, and running gives), purging outputs and internals and running again reproduces it.
 Laws ==
     LET m == Eval(db)
         f == IF OnlyInputs(db) = db THEN m ELSE Fresh(db)
-    IN /\ ~m.o
-       /\ \A r \in Rels : db[r] \subseteq m.I[r]
+    IN /\ \A r \in Rels : db[r] \subseteq m.I[r]
        /\ Eval(m.I).I = m.I
        /\ (m.I = f.I /\ InRels \cap OutRels = {}) => Eval(Purged(m.I, OutRels \cup IntRels)).I = m.I
 \* an object that holds only inputs evaluates to Datalog's model of the program on those inputs as the EDB
